@@ -301,7 +301,8 @@ def clause_b(repo, chk):
     for n in walk_local(gf.node):
         if isinstance(n, ast.Assign) and isinstance(n.targets[0], ast.Name) and isinstance(n.value, ast.Call):
             fnm = norm_text(n.value.func).split(".")[-1]
-            args_ = [norm_text(a) for a in n.value.args]
+            # an argument bound once to a plain expression (residual = f - y) stands for that expression
+            args_ = [norm_text(defs[a.id]) if isinstance(a, ast.Name) and a.id in defs and isinstance(defs[a.id], (ast.BinOp, ast.UnaryOp)) else norm_text(a) for a in n.value.args]
             # method style <expr>.diff(x) is function style diff(<expr>, x)
             if isinstance(n.value.func, ast.Attribute) and fnm in ("diff",) and not (isinstance(n.value.func.value, ast.Name) and n.value.func.value.id in gf.mod.imports):
                 args_ = [norm_text(n.value.func.value)] + args_
